@@ -231,7 +231,7 @@ def _assign_roles(facts, tables):
         calls_eval = False
         for k in reach:
             b = facts.body(k)
-            if b is None or not (k == ev.key or k.startswith(ev.key + "::")):
+            if b is None:
                 continue
             for _, term in b.calls():
                 p = callee_path(term)
